@@ -86,8 +86,21 @@ DigestOK(s) == LET c == IndexOf(s, ":") IN
 
 \* registry authority: three-valued, as the property allows
 HostChar == Lower \cup Upper \cup Digit \cup {".", "-"}
+\* an IPv6 literal in brackets, with or without a port.  Which bracketed strings net/url takes for an IPv6 literal
+\* depends on the Go version (newer ones reject malformed literals), so only a few well-formed ones must be accepted;
+\* every other bracketed registry is not judged.
+V6Known == {<<":", ":", "1">>, <<"2", "0", "0", "1", ":", "d", "b", "8", ":", ":", "1">>, <<"f", "e", "8", "0", ":", ":", "1">>}
+RegIsV6(s) ==
+  /\ Len(s) >= 5 /\ s[1] = "["
+  /\ LET rb == IndexOf(s, "]") IN
+     /\ rb >= 5
+     /\ SubSeq(s, 2, rb - 1) \in V6Known
+     /\ \/ rb = Len(s)
+        \/ /\ Len(s) >= rb + 2 /\ s[rb + 1] = ":"
+           /\ \A i \in (rb + 2)..Len(s) : s[i] \in Digit
 RegMustAccept(s) == LET c == IndexOf(s, ":") IN
-  IF c = 0 THEN Len(s) >= 1 /\ \A i \in 1..Len(s) : s[i] \in HostChar
+  IF RegIsV6(s) THEN TRUE
+  ELSE IF c = 0 THEN Len(s) >= 1 /\ \A i \in 1..Len(s) : s[i] \in HostChar
   ELSE /\ c >= 2 /\ c < Len(s)
        /\ \A i \in 1..(c - 1) : s[i] \in HostChar
        /\ \A i \in (c + 1)..Len(s) : s[i] \in Digit
